@@ -29,7 +29,8 @@ RULE = ("random content-stream programs over m l c v y h re / S s f F f* B B* b 
         "g G rg RG k K cs CS sc scn SC SCN / q Q cm with dyadic operands, under random page CTMs (MediaBox "
         "origin, Rotate) and random dyadic cm matrices (rotations, mirrors, shears, singular); sub-paths are "
         "drawn from: single lines, m-l-h, closed/unclosed axis-aligned loops in both orientations, redundant "
-        "closing l, zero-length segments, lone m, m-h, re followed by more segments, Bezier segments; a case "
+        "closing l, zero-length segments, lone m, m-h, re followed by more segments, Bezier segments; operators "
+        "with the right operand count and a non-numeric operand (name, array) at every position; a case "
         "is non-trivial when it is a distinct program that paints >= 1 sub-path with >= 1 segment under a "
         "non-identity CTM or a non-default graphics state; `wild` programs (wrong operand counts/types, "
         "segments without m, state changes inside a path) are used for the model/implementation tie only")
@@ -55,27 +56,24 @@ ASSUMPTIONS = [
     "settings.STRICT is False (library default)",
 ]
 STATEMENT_STATUS: Dict[str, str] = {
-    "C16_paint_path_statement": "counter-example proved (C16_paint_path_statement_cex, C16_rect_pts_cex): LTRect.pts "
-                                "order, open finding ltrect-pts-canonical-order",
-    "C16_paint_path_partial": "partial: all attributes of every shape of every painted path (count, order, class, "
-                              "points, bbox, original_path, flags, width, dash, colours) except the order of a "
-                              "rectangle's four points",
-    "C16_subpath_shape_partial": "partial: same exclusion, one sub-path",
-    "C16_rect_pts_horizontal": "proved", "C16_rect_pts_vertical": "proved (characterises the open finding)",
-    "C16_rect_pts_cex": "proved counter-example", "C16_paint_path_statement_cex": "proved counter-example",
-    "C16_paint_flags": "proved (regenerated table = ISO table 60)", "C16_re_path": "proved (regenerated do_re)",
-    "C16_page_ctm": "proved (regenerated process_page table)",
+    "C16_shapes_statement": "counter-example proved (C16_shapes_statement_cex, C16_pattern_cex): pattern colours, "
+                            "open finding pattern-colour-not-recorded",
+    "C16_shapes_partial": "partial: whole token streams of all well-formed programs (incl. ill-typed operands), "
+                          "every page set-up and resource colour-space map, ALL shape attributes; excludes only "
+                          "sc-family operators while a Pattern colour space is current",
+    "C16_paint_path": "proved (full: all attributes incl. rectangle points, every list of sub-paths)",
+    "C16_subpath_shape": "proved (full)",
+    "C16_rect_pts_fixed": "proved (regression instance of the fixed LTRect.pts finding)",
+    "C16_arity_fixed": "proved (regression instance of the fixed colour-arity finding)",
+    "C16_shapes_statement_cex": "proved counter-example", "C16_pattern_cex": "proved counter-example",
+    "C16_ill_typed_ignored": "proved (operators with a non-numeric operand are ignored)",
     "C16_initial_colour": "proved (_initial_color = ISO Table 74 for every colour space)",
     "C16_cs_resets_colour": "proved",
+    "C16_paint_flags": "proved (regenerated table = ISO table 60)", "C16_re_path": "proved (regenerated do_re)",
+    "C16_page_ctm": "proved (regenerated process_page table)",
     "C16_never_raises": "proved (model: no exception on any token stream)",
     "C16_no_residue": "proved", "C16_n_paints_nothing": "proved",
     "C16_gstack_untouched": "proved", "C16_qQ_restores": "proved", "C16_q_saves": "proved",
-    "C16_shapes_statement": "counter-example proved (C16_shapes_statement_cex); open findings",
-    "C16_shapes_partial": "partial: whole token streams of all well-formed programs, every page set-up and "
-                          "resource colour-space map; excludes (explicit hypotheses) the order of a rectangle's "
-                          "points, pattern colours, sc-family operand counts other than 1/3/4",
-    "C16_shapes_statement_cex": "proved counter-example", "C16_pattern_cex": "proved counter-example",
-    "C16_arity_cex": "proved counter-example",
 }
 
 # --------------------------------------------------------------------------- operators
@@ -90,6 +88,8 @@ NARGS = {"m": 2, "l": 2, "c": 6, "v": 4, "y": 4, "h": 0, "re": 4, "n": 0, "w": 1
 for _k in PAINT:
     NARGS[_k] = 0
 SEGOPS = ("l", "c", "v", "y")
+NUM_ARITY = {"m": 2, "l": 2, "c": 6, "v": 4, "y": 4, "re": 4, "w": 1, "cm": 6, "g": 1, "G": 1, "rg": 3, "RG": 3,
+             "k": 4, "K": 4}
 PREDEF = [("DeviceGray", 1), ("CalRGB", 3), ("CalGray", 1), ("Lab", 3), ("DeviceRGB", 3), ("DeviceCMYK", 4),
           ("Separation", 1), ("Indexed", 1), ("Pattern", 1)]
 
@@ -422,6 +422,14 @@ def spec_run(case) -> List[Dict[str, str]]:
 
     for op in case["ops"]:
         k, a = op[0], op[1:]
+        # an operator that takes numbers, given the right NUMBER of operands of which one is not a number
+        # (a name, an array), is ignored as a whole
+        ar = NUM_ARITY.get(k)
+        if k in ("sc", "scn", "SC", "SCN"):
+            n_, pat_ = gs["ss" if k.isupper() else "ns"]
+            ar = None if pat_ else n_
+        if ar is not None and len(a) == ar and not all(is_num(x) for x in a):
+            continue
         if k == "m":
             x, y = nums(a, 2)
             subpaths.append([(x, y), [], False])
@@ -490,6 +498,8 @@ def spec_run(case) -> List[Dict[str, str]]:
                     raise OutsideDomain("pattern colour needs scn/SCN with a name")
                 gs[key] = ("P", a[-1], tuple(nums(a[:-1])))
             else:
+                if n == 0:
+                    raise OutsideDomain("colour space without components")
                 gs[key] = tuple(nums(a, n))
         elif k == "q":
             nums(a, 0)
@@ -557,6 +567,7 @@ class Gen:
         self.ss = (1, False)
         self.ns = (1, False)
         self.stack: List[Any] = []
+        self.nbad = 0
 
     def pt(self):
         return [num(dy(self.rng)), num(dy(self.rng))]
@@ -568,6 +579,8 @@ class Gen:
     def state_op(self, nested: bool = False):
         rng = self.rng
         r = rng.random()
+        if rng.random() < 0.12:
+            self.bad_operand(["w", "cm", "g", "G", "rg", "RG", "k", "K", "sc", "scn", "SC", "SCN"])
         if not nested and r < 0.1:
             self.q_block()
         elif r < 0.12:
@@ -618,6 +631,27 @@ class Gen:
         else:
             k = rng.choice(["SC", "SCN"] if stroking else ["sc", "scn"])
             self.emit(k, *[num(F(rng.randint(0, 8), 8)) for _ in range(n)])
+
+    def bad_operand(self, ops: List[str]):
+        """An operator of `ops` with the right operand count and ONE operand that is not a number, at a
+        uniformly chosen position (every position of every operator is hit many times per run)."""
+        rng = self.rng
+        k = rng.choice(ops)
+        if k in ("sc", "scn", "SC", "SCN"):
+            n, pat = self.ss if k.isupper() else self.ns
+            if pat:
+                return
+        else:
+            n = NUM_ARITY[k]
+        a: List[Any] = [num(F(rng.randint(0, 8), 8)) if k not in ("m", "l", "c", "v", "y", "re", "cm", "w")
+                        else num(dy(rng, -8, 8)) for _ in range(n)]
+        if n == 0:
+            return
+        a[rng.randrange(n)] = rng.choice(["/Nm", "/Nm", ["1", "2"], []])
+        if rng.random() < 0.15 and n > 1:      # a second one
+            a[rng.randrange(n)] = "/X"
+        self.emit(k, *a)
+        self.nbad += 1
 
     def q_block(self):
         """q, change colour space / colours / width / dash / CTM inside, paint, Q, then use the outer state."""
@@ -673,6 +707,8 @@ class Gen:
         nseg = rng.choice([1, 1, 1, 2, 2, 3, 4, 5, 6])
         last = (x, y)
         for _ in range(nseg):
+            if rng.random() < 0.05:
+                self.bad_operand(["l", "c", "v", "y"])
             q = rng.random()
             if q < 0.55:
                 p = (dy(rng), dy(rng))
@@ -697,6 +733,8 @@ class Gen:
         rng = self.rng
         for _ in range(rng.choice([1, 1, 1, 2, 2, 3])):
             self.subpath()
+            if rng.random() < 0.1:
+                self.bad_operand(["m", "l", "c", "v", "y", "re"])
         if rng.random() < 0.1:
             self.emit(rng.choice(["W", "W*"]))
         ends = ["S", "s", "f", "F", "f*", "B", "B*", "b", "b*", "n"]
@@ -875,11 +913,7 @@ def report_failure(ctx: C.Ctx, case, d) -> None:
 
 
 CLASSIFIERS = {
-    "c16_ltrect_pts_canonical_order": lambda f: bool(f.tags.get("rect_pts_reversed")),
     "c16_pattern_colour_not_recorded": lambda f: bool(f.tags.get("expected_pattern")),
-    "c16_colour_arity_unsupported": lambda f: bool(f.tags.get("arity_unsupported")),
-    "c16_segment_after_h_not_split": lambda f: bool(f.tags.get("segment_after_h")) and
-    f.tags.get("fields") in (["count"], ["kind"], ["pts"], ["kind", "pts"]),
 }
 
 
@@ -913,6 +947,10 @@ def check_batch(ctx: C.Ctx, cases: List[Dict[str, Any]], in_domain: bool, seen_s
                  branch="domain" if dom else "wild")
         for k in opnames:
             ctx.branch("op:" + k)
+        for o in case["ops"]:
+            if (o[0] in NUM_ARITY or o[0] in ("sc", "scn", "SC", "SCN")) and not all(is_num(x) for x in o[1:]):
+                pos = [i for i, x in enumerate(o[1:]) if not is_num(x)]
+                ctx.branch("badoperand:%s:pos%d/%d" % (o[0], pos[0], len(o) - 1))
         if isinstance(got, str):
             ctx.branch("impl:" + got)
         else:
